@@ -104,7 +104,17 @@ def _run_exact(res, ops, wall, tier):
     sync = SynchronizedClock(interp)
     # a second interpreter driven by a SynchronizedClock on the first, and a SynchronizedClock following that one: it shows
     # the time of the follower's last step, not the time of whatever the follower itself follows
-    follower = Interpreter(_chart(), clock=SynchronizedClock(interp))
+    if ops.flag(1, 3):
+        # the follower first lives on a clock of its own (and steps at time 500), then it is handed a SynchronizedClock, as the
+        # deprecated bind_property_statechart(<interpreter>) does: from its next step on its time is what the new clock shows
+        own = SimulatedClock()
+        own.time = 500
+        follower = Interpreter(_chart(), clock=own)
+        follower.execute_once()
+        follower.clock = SynchronizedClock(interp)
+        res.stats['follower_re_clocked_after_a_step_at_a_later_time'] += 1
+    else:
+        follower = Interpreter(_chart(), clock=SynchronizedClock(interp))
     sync2 = SynchronizedClock(follower)
     follower_last = F(follower.time)
     at_start = []
